@@ -269,7 +269,7 @@ def run(case: dict, ctx) -> dict:
             res["viol"].append({"what": "symlink target differs", "mech": MECH, "detail": {"member": name[:60]}})
             break
     safe = [(n_, w_) for (n_, kd_, sz_, _m), (_a, _b, _c, w_) in zip(got, expected)
-            if kd_ == "file" and sz_ > 0 and not n_.startswith("/") and ".." not in n_.split("/") and "\\" not in n_ and "\0" not in n_ and len(n_) < 200]
+            if kd_ == "file" and sz_ > 0 and not n_.startswith("/") and not ({"..", ".", ""} & set(n_.split("/"))) and "\\" not in n_ and "\0" not in n_ and len(n_) < 200]
     if not far and safe and not res["viol"] and case["i"] % 3 == 0:
         # extraction to disk while the medium fails: extract() either raises or leaves the stored bytes - it does not return
         # normally with a file that holds something else
